@@ -499,6 +499,15 @@ func trySendObject(ctx context.Context, object string, objectsFound *atomic.Uint
 			return
 		}
 	}
+	// An object that has taken one of the maxResults slots must be delivered: the evaluation is
+	// cancelled as soon as all slots are taken, which can happen between the reservation above and
+	// the send below, and a send that loses the race against that cancellation would leave the
+	// response one object short. The channel has room for every reserved slot, so try it first.
+	select {
+	case resultsChan <- ListObjectsResult{ObjectID: object}:
+		return
+	default:
+	}
 	concurrency.TrySendThroughChannel(ctx, ListObjectsResult{ObjectID: object}, resultsChan)
 }
 
